@@ -6,6 +6,7 @@ package simctx
 
 import (
 	"context"
+	"errors"
 	"os"
 	"runtime"
 	"runtime/debug"
@@ -78,13 +79,15 @@ func StartMemoryMonitor(limitBytes uint64) {
 }
 
 type Ctx struct {
-	ch      chan struct{}
-	Polls   int  // number of Done() calls so far = VM steps taken
-	CloseAt int  // close the channel during this poll (0 = never)
-	Budget  int  // close the channel when Polls exceeds this (0 = none): step cap
-	Closed  bool // the channel has been closed
-	ByFault bool // closed by CloseAt or Cancel (a simulated cancellation), not by the budget
-	ByMem   bool // closed because of memory pressure
+	inner       context.Context
+	cancelInner context.CancelCauseFunc
+	ch          chan struct{}
+	Polls       int  // number of Done() calls so far = VM steps taken
+	CloseAt     int  // close the channel during this poll (0 = never)
+	Budget      int  // close the channel when Polls exceeds this (0 = none): step cap
+	Closed      bool // the channel has been closed
+	ByFault     bool // closed by CloseAt or Cancel (a simulated cancellation), not by the budget
+	ByMem       bool // closed because of memory pressure
 	// ErrValue is what Err() reports once closed (default context.Canceled); the interpreter must
 	// return exactly what ctx.Err() says, not a constant of its own.
 	ErrValue error
@@ -105,7 +108,16 @@ type Ctx struct {
 
 var _ context.Context = (*Ctx)(nil)
 
-func New() *Ctx { return &Ctx{ch: make(chan struct{})} }
+// ErrCause is the cause recorded in the standard-library context every simulated context carries
+// inside (reachable through Value, as for any child of a context.WithCancelCause context):
+// context.Cause(ctx) reports it, ctx.Err() does not. The interpreter must return ctx.Err().
+var ErrCause = errors.New("simulated cancellation cause (must not be returned: Next returns ctx.Err())")
+
+func New() *Ctx {
+	c := &Ctx{ch: make(chan struct{})}
+	c.inner, c.cancelInner = context.WithCancelCause(context.Background())
+	return c
+}
 
 func (c *Ctx) Deadline() (time.Time, bool) { return time.Time{}, false }
 
@@ -138,6 +150,9 @@ func (c *Ctx) Done() <-chan struct{} {
 
 func (c *Ctx) close(fault bool) {
 	c.Closed, c.ByFault, c.ClosedAtPoll = true, fault, c.Polls
+	if c.cancelInner != nil {
+		c.cancelInner(ErrCause)
+	}
 	close(c.ch)
 }
 
@@ -159,4 +174,9 @@ func (c *Ctx) Err() error {
 	return nil
 }
 
-func (c *Ctx) Value(any) any { return nil }
+func (c *Ctx) Value(key any) any {
+	if c.inner != nil {
+		return c.inner.Value(key)
+	}
+	return nil
+}
